@@ -116,7 +116,7 @@ def judge(rep, it, ex, tmo):
                      f"after the since date starts at {spec_pos} (len {len(content)})",
                      impl=unit, spec=spec_pos)
             return
-        if api != ex['suffix'] and not ('err' in api and 'err' in ex['suffix']):
+        if S.pub(api) != S.pub(ex['suffix']) and not ('err' in api and 'err' in ex['suffix']):
             a, b = dict(api), dict(ex['suffix'])
             # searches/searches_by_job are equal; lines/results must be too
             rep.fail('failing-input', scn,
